@@ -188,6 +188,46 @@ class Translator:
 _PW = (sp.Min, sp.Max, sp.floor, sp.ceiling, sp.Abs, sp.Mod)
 
 
+class _Timeout(Exception):
+    pass
+
+
+class time_limit:
+    """Bound the time sympy may spend on one normalisation (simplify can diverge on nested floor/ceiling)."""
+
+    def __init__(self, seconds):
+        self.seconds = seconds
+        self.active = False
+
+    def __enter__(self):
+        import signal
+        import threading
+        if threading.current_thread() is threading.main_thread():
+            self.active = True
+            self.old = signal.signal(signal.SIGALRM, self._raise)
+            signal.setitimer(signal.ITIMER_REAL, self.seconds)
+        return self
+
+    def _raise(self, *a):
+        raise _Timeout()
+
+    def __exit__(self, *a):
+        import signal
+        if self.active:
+            signal.setitimer(signal.ITIMER_REAL, 0)
+            signal.signal(signal.SIGALRM, self.old)
+        return False
+
+
+def safe_simplify(e, seconds=8):
+    """sympy.simplify with a time limit; returns the input unchanged when the limit is hit."""
+    try:
+        with time_limit(seconds):
+            return sp.simplify(e)
+    except _Timeout:
+        return e
+
+
 def _abstract_pw(e, table):
     """Replace every piecewise function application (min/max/floor/ceiling/abs/mod) by a symbol, bottom-up;
     two applications get the same symbol iff they are the same function of provably equal arguments."""
@@ -246,6 +286,14 @@ def equivalent(a, b, samples=6):
 
 
 def _numeric_witness(d):
+    try:
+        with time_limit(5):
+            return _numeric_witness_inner(d)
+    except _Timeout:
+        return None
+
+
+def _numeric_witness_inner(d):
     syms = sorted(d.free_symbols, key=lambda s: s.name)
     vals = [sp.Rational(3, 2), sp.Rational(7, 3), sp.Integer(10), sp.Integer(1000), sp.Rational(1, 10), sp.Integer(100000), sp.Rational(1, 1000)]
     for k in range(len(vals) * 2):
@@ -264,20 +312,25 @@ def _numeric_witness(d):
 def _equivalent_analytic(a, b, samples=6):
     if a == b:
         return True, None
+    d = a - b
     try:
-        d = sp.simplify(a - b)
+        with time_limit(8):
+            d = sp.simplify(a - b)
+    except _Timeout:
+        d = a - b
     except Exception as ex:  # pragma: no cover
         return None, "sympy failed: %r" % (ex,)
     if d == 0:
         return True, None
     try:
-        d2 = sp.simplify(sp.expand_log(sp.expand(d), force=True))
-        if d2 == 0:
-            return True, None
-        d3 = sp.simplify(sp.powsimp(sp.expand_power_base(d, force=True), force=True))
-        if d3 == 0:
-            return True, None
-    except Exception:
+        with time_limit(8):
+            d2 = sp.simplify(sp.expand_log(sp.expand(d), force=True))
+            if d2 == 0:
+                return True, None
+            d3 = sp.simplify(sp.powsimp(sp.expand_power_base(d, force=True), force=True))
+            if d3 == 0:
+                return True, None
+    except (_Timeout, Exception):
         pass
     # numeric witness at rational points (for the reader; also guards against simplify's incompleteness)
     syms = sorted(d.free_symbols, key=lambda s: s.name)
@@ -290,11 +343,12 @@ def _equivalent_analytic(a, b, samples=6):
     for k in range(samples):
         sub = {s: primes[(i + k) % len(primes)] + k for i, s in enumerate(syms)}
         try:
-            val = d.subs(sub)
-            for j, f in enumerate(sorted(val.atoms(sp.core.function.AppliedUndef), key=str)):
-                val = val.subs(f, primes[(j + 2 * k) % len(primes)])
-            v = complex(sp.N(val, 30))
-        except Exception:
+            with time_limit(5):
+                val = d.subs(sub)
+                for j, f in enumerate(sorted(val.atoms(sp.core.function.AppliedUndef), key=str)):
+                    val = val.subs(f, primes[(j + 2 * k) % len(primes)])
+                v = complex(sp.N(val, 30))
+        except (_Timeout, Exception):
             return None, "cannot evaluate the difference numerically"
         if abs(v) > 1e-12:
             allzero = False
